@@ -1,5 +1,6 @@
 import Vanguard.Model.Run
 import Vanguard.Lemmas.CleanStream
+import Vanguard.Lemmas.ReframeStream
 import Vanguard.Model.World
 /-!
   C01 — Messages arrive intact across every protocol, codec and compression pairing.
@@ -113,5 +114,26 @@ example : dSt.src.data = framesBytes [⟨0, 0, 0, 0, 2, [7, 8]⟩] := by decide 
 example : convertedAll fakeWorld (dOp.plan fakeWorld) dSt .grpcWebClient [⟨0, 0, 0, 0, 2, [7, 8]⟩]
     = some [0, 0, 0, 0, 4, 48, 55, 48, 56] := by decide +kernel
 example : (dOp.plan fakeWorld).clientReqNeedsPrep = false := by decide +kernel
+
+/-- **The backend reads exactly the client's messages on the re-framing path** (same codec and
+    compression on both sides, both protocols with envelopes; every sequence of read sizes, every
+    segmentation of the body): `fs` the client's frames (legal, within the limit); a handler reading
+    with sizes `ns` until the body reports an error has been given, for every frame, the backend's own
+    envelope followed by the untouched payload (`reframedAll`), and the error is `io.EOF`. -/
+theorem backend_reads_exactly_the_messages_reframed (w : World) (ce se : Enveloper) (st : St) (fs : List Frame)
+    (ns : List Nat) (o : Bytes) (e : Err)
+    (hce : st.op.clientEnveloper = some ce) (hse : st.op.serverEnveloper = some se)
+    (hok : ∀ x ∈ fs, x.ok ce st.op.conf.maxMsg) (hd : st.src.data = framesBytes fs) (he : st.src.ending ≠ .unexpected)
+    (hreads : EReads w st {} ns o e) : o = reframedAll ce se fs ∧ e = .eof :=
+  reframed_clean_stream w ce se st fs ns o e hce hse hok hd he hreads
+
+/-- Non-vacuity (kernel-evaluated): the frame `00 00 00 00 02 | 07 08` arriving in two pieces, read with
+    buffer sizes 3, 100, 100, 1, 9: the handler is given the backend's envelope and the payload, then `io.EOF`. -/
+example : EReads fakeWorld dSt {} [3, 100, 100, 1, 9] [0, 0, 0, 0, 2, 7, 8] .eof := by
+  refine .more _ _ _ _ [0, 0, 0] _ _ _ _ _ (by decide) rfl ?_
+  refine .more _ _ _ _ [0, 2] _ _ _ _ _ (by decide) rfl ?_
+  refine .more _ _ _ _ [7] _ _ _ _ _ (by decide) rfl ?_
+  refine .more _ _ _ _ [8] _ _ _ _ _ (by decide) rfl ?_
+  exact .last _ _ _ _ [] _ _ _ _ (by decide) rfl
 
 end Vanguard.C01
